@@ -31,11 +31,13 @@ pub struct Style {
     pub break_lists: bool,   // line breaks inside list literals / filters
     pub bare_default: bool,  // render a rule named "default" as bare clauses
     pub type_as_query: bool, // render type blocks as Resources.*[ Type == 'X' ] { .. }
+    pub mix: u64,            // != 0: every token occurrence picks its own variant (seeded)
 }
 
 pub struct R<'a> {
     pub st: &'a Style,
     ctr: std::cell::Cell<usize>,
+    rng: std::cell::Cell<u64>,
 }
 
 fn is_var_name(s: &str) -> bool {
@@ -51,17 +53,30 @@ const RESERVED: [&str; 6] = ["this", "THIS", "some", "SOME", "when", "WHEN"];
 
 impl<'a> R<'a> {
     pub fn new(st: &'a Style) -> R<'a> {
-        R { st, ctr: std::cell::Cell::new(0) }
+        R { st, ctr: std::cell::Cell::new(0), rng: std::cell::Cell::new(st.mix) }
+    }
+    /// per-occurrence coin (only in mixed mode)
+    fn coin(&self, n: u64) -> Option<u64> {
+        if self.st.mix == 0 {
+            return None;
+        }
+        let mut z = self.rng.get().wrapping_add(0x9E37_79B9_7F4A_7C15);
+        self.rng.set(z);
+        z = (z ^ (z >> 30)).wrapping_mul(0xBF58_476D_1CE4_E5B9);
+        z = (z ^ (z >> 27)).wrapping_mul(0x94D0_49BB_1331_11EB);
+        Some((z ^ (z >> 31)) % n)
     }
     fn kw(&self, k: &str) -> String {
-        if self.st.upper {
+        let upper = match self.coin(2) { Some(c) => c == 1, None => self.st.upper };
+        if upper {
             k.to_uppercase()
         } else {
             k.to_string()
         }
     }
     fn or(&self) -> &'static str {
-        match self.st.or_variant {
+        let v = match self.coin(3) { Some(c) => c as u8, None => self.st.or_variant };
+        match v {
             1 => "OR",
             2 => "|OR|",
             _ => "or",
@@ -69,7 +84,8 @@ impl<'a> R<'a> {
     }
     /// prefix negation, including the separator it needs
     fn not(&self) -> &'static str {
-        match self.st.not_variant {
+        let v = match self.coin(3) { Some(c) => c as u8, None => self.st.not_variant };
+        match v {
             1 => "NOT ",
             2 => "!",
             _ => "not ",
